@@ -75,6 +75,7 @@ statements
     ("with", ((name, e), ...), body)             {% with a = e %}w<body>{% endwith %}
     ("macro", "m", ((param, default|None), ...), body)   {% macro m(a, b=e) %}<<body>>{% endmacro %}
     ("callblock", (cparams...), call_expr, body) {% call(a) m(1) %}c<body>;{% endcall %}
+                                                 a cparam is a name or a (name, default) pair: call(a=e)
     ("filter", body)                             {% filter upper %}x<body>{% endfilter %}
     ("nsnew", "ns", e)                           {% set ns = namespace(x=e) %}
     ("nsset", "ns", "x", e)                      {% set ns.x = e %}
@@ -171,6 +172,11 @@ def C(n):
 
 def V(x):
     return ("v", x)
+
+
+def cparams(st):
+    """call-block parameters as (name, default|None) pairs."""
+    return tuple((p, None) if isinstance(p, str) else tuple(p) for p in st[1])
 
 
 COMPOUND = ("bset", "if", "for", "with", "macro", "callblock", "filter", "recfor")
@@ -288,8 +294,10 @@ def _stmt_names(st, acc, flags):
                 _expr_names(d, acc, flags)
         _prog_names(st[3], acc, flags)
     elif k == "callblock":
-        for p in st[1]:
+        for p, d in cparams(st):
             acc.append(p)
+            if d is not None:
+                _expr_names(d, acc, flags)
         _expr_names(st[2], acc, flags)
         _prog_names(st[3], acc, flags)
     elif k == "filter":
@@ -419,7 +427,8 @@ def stmt_source(st, rename=None):
         ps = ", ".join(_rn(rename, p) if d is None else "%s=%s" % (_rn(rename, p), E(d)) for p, d in st[2])
         return "{%% macro %s(%s) %%}<%s>{%% endmacro %%}" % (_rn(rename, st[1]), ps, S(st[3]))
     if k == "callblock":
-        cp = "(%s)" % ", ".join(_rn(rename, p) for p in st[1]) if st[1] else ""
+        cp = ", ".join(_rn(rename, p) if d is None else "%s=%s" % (_rn(rename, p), E(d)) for p, d in cparams(st))
+        cp = "(%s)" % cp if cp else ""
         return "{%% call%s %s %%}c%s;{%% endcall %%}" % (cp, E(st[2]), S(st[3]))
     if k == "filter":
         return "{%% filter upper %%}x%s{%% endfilter %%}" % S(st[1])
@@ -487,7 +496,8 @@ def alphabet(pool, profile):
       "core"  set / out / if / for / with / macro+call on two variables
       "tiny"  nine labels: the scoping skeleton (out, set, if, for, with, macro, call)
       "tiny2" nine labels: block set, filter block, recursive loop, namespace store
-      "tiny3" twelve labels: macro parameters/defaults, call block, caller, break
+      "tiny3" fifteen labels: macro / call-block parameters and defaults (other variable,
+              same-named outer variable), caller, break
       "alias5" eight labels on three variables (out, set, copies, for, with)
       "deep1" six labels on one variable (out, set, read-modify-write, if, for, with)
       "macro5" five labels on one variable (out, set, read-modify-write, macro, call)
@@ -521,7 +531,8 @@ def alphabet(pool, profile):
         a["callblock"] = ([((), ("call", MACRO, (), ())), ((), ("call", MACRO, (C(1),), ()))]
                           + [((), ("call", MACRO, (V(x),), ())) for x in P]
                           + [((x,), ("call", MACRO, (), ())) for x in P]
-                          + [((x,), ("call", MACRO, (V(y),), ())) for x in P for y in P])
+                          + [((x,), ("call", MACRO, (V(y),), ())) for x in P for y in P]
+                          + [(((x, V(x)),), ("call", MACRO, (), ())) for x in P])
         a["filter"] = [True]
         a["bset"] = list(P)
         a["nsnew"] = [C(1)] + [V(x) for x in P]
@@ -535,7 +546,7 @@ def alphabet(pool, profile):
         a["for"] = [(x, "l12", None), (y, "l12", None), (x, "empty", None), (x, "l12", ("odd", x)), (x, "l12", ("def", y))]
         a["loopctl"] = [("break",), ("continue",)]
         a["with"] = [(), ((x, C(1)),), ((x, V(y)),), ((x, V(x)),)]
-        a["macro"] = [(), ((x, None),), ((x, V(y)),), ((x, None), (y, V(x)))]
+        a["macro"] = [(), ((x, None),), ((x, V(y)),), ((x, V(x)),), ((x, None), (y, V(x)))]
         a["call"] = [("call", MACRO, (), ()), ("call", MACRO, (C(1),), ()), ("call", MACRO, (V(y),), ()),
                      ("call", MACRO, (), ((x, C(1)),))]
         a["caller"] = [("caller", ()), ("caller", (V(x),))]
@@ -580,10 +591,10 @@ def alphabet(pool, profile):
         x, y = P[0], P[1]
         a["out"] = [V(x)]
         a["set"] = [(x, C(1)), (y, C(2))]
-        a["macro"] = [((x, None),), ((x, V(y)),)]
+        a["macro"] = [((x, None),), ((x, V(y)),), ((x, V(x)),)]
         a["call"] = [("call", MACRO, (), ()), ("call", MACRO, (V(y),), ())]
-        a["caller"] = [("caller", (V(x),))]
-        a["callblock"] = [((y,), ("call", MACRO, (), ()))]
+        a["caller"] = [("caller", ()), ("caller", (V(x),))]
+        a["callblock"] = [((y,), ("call", MACRO, (), ())), (((x, V(x)),), ("call", MACRO, (), ()))]
         a["with"] = [((y, V(x)),)]
         a["for"] = [(x, "l12", None)]
         a["loopctl"] = [("break",)]
@@ -982,7 +993,8 @@ def _frames_of(st):
         ps = tuple(p for p, _ in st[2]) + (("caller",) if _mentions_caller(st[3]) else ())
         return [(st[3], ps, tuple(d for _, d in st[2] if d is not None))]
     if k == "callblock":
-        return [(st[3], tuple(st[1]), ())]
+        cps = cparams(st)
+        return [(st[3], tuple(p for p, _ in cps), tuple(d for _, d in cps if d is not None))]
     if k == "filter":
         return [(st[1], (), ())]
     if k == "recfor":
@@ -1281,7 +1293,7 @@ class _Interp:
             elif k == "macro":
                 sc.vars[st[1]] = _Macro(st[1], st[2], st[3], sc, _mentions_caller(st[3]), ("<", ">"), st)
             elif k == "callblock":
-                cl = _Macro(None, tuple((p, None) for p in st[1]), st[3], sc, False, ("c", ";"), st)
+                cl = _Macro(None, cparams(st), st[3], sc, False, ("c", ";"), st)
                 call = st[2]
                 f = sc.lookup(call[1])
                 args = [self.eval(a, sc) for a in call[2]]
